@@ -7,10 +7,12 @@ import Asts.Proofs.C02_Trunc
 namespace Asts.C02p
 open Asts Asts.L1c
 
-/-- a normal world, whatever the pod management policy -/
+/-- the `rollingUpdate` block with a partition is present, or the strategy is OnDelete (not the legacy boundary mode) -/
+def PartOk (v : SetView) : Prop := v.strat = .onDelete ∨ ∃ p, v.ru = some (some p) ∧ 0 ≤ p
+
+/-- a normal world, whatever the pod management policy and the update strategy -/
 structure NormC (h : Hashing) (i : SyncIn) : Prop where
   spec : SpecOk i
-  part : i.view.strat = .onDelete ∨ ∃ p, i.view.ru = some (some p) ∧ 0 ≤ p
   pods : ∀ c ∈ i.pods, c.owner = .self ∧ c.member = true ∧ c.selMatch = true ∧ c.name = canonicalName i.setName c.pod.ord ∧
     0 ≤ c.pod.ord ∧ c.pod.ord < maxInt32 ∧ c.pod.stOk = true ∧ c.pod.created = true
   ords : (i.pods.map (·.pod.ord)).Nodup
